@@ -1,6 +1,7 @@
 package host
 
 import (
+	"encoding/hex"
 	"fmt"
 	"os"
 	"sync"
@@ -43,6 +44,14 @@ func c04Prepare(caseID int, idx int, behaviour, proto, launch string, managed bo
 		pcfg["neverExit"] = behaviour == "never"
 	case "failed-handshake":
 		pcfg = map[string]any{"mode": "raw", "lineHex": "6761726261676520686572650a", "after": "hang"}
+	case "nolisten":
+		// a valid handshake line, the process stays alive, but nothing listens at the announced address:
+		// Start succeeds, Client() fails, and then Kill is called
+		line := "1|1|tcp|127.0.0.1:1|" + wire
+		if mux {
+			line += "||true"
+		}
+		pcfg = map[string]any{"mode": "raw", "lineHex": hex.EncodeToString([]byte(line + "\n")), "after": "hang"}
 	case "start-timeout-partial-line":
 		// "1|1|tcp" without a newline, then silence: Start times out with a token still to come
 		pcfg = map[string]any{"mode": "raw", "lineHex": "317c317c746370", "after": "hang"}
@@ -74,6 +83,16 @@ func c04Prepare(caseID int, idx int, behaviour, proto, launch string, managed bo
 		return s
 	}
 	s.obs.Pid = l.pid()
+	if behaviour == "nolisten" {
+		if cp, err := l.Client.Client(); err == nil && wire == "netrpc" {
+			_ = cp
+			s.obs.SetupErr = "Client() unexpectedly succeeded with nothing listening"
+		} else if err == nil {
+			cp.Ping() // gRPC connects lazily: the first call fails instead
+		}
+		s.obs.StateBefore = procState(s.obs.Pid)
+		return s
+	}
 	cp, err := l.Client.Client()
 	if err != nil {
 		s.obs.SetupErr = "client: " + err.Error()
